@@ -50,6 +50,8 @@ def generate(seed: int, tier: str = "quick") -> dict:
     world["markets"].append(mw)
     if comarket:
         C15.add_comarket(rw, world, token, path)
+        if R.sub(seed, "filtered").random() < 0.3:
+            mw["filtered_from_half_hours"] = True
     faults = []
     meta = mw["meta"]["instruments"]
     hours = mw["hours"]
